@@ -3,7 +3,7 @@
 # results (one line per check) go to /verif/.scratch/run_all-<tier>.results
 TIER=${1:-quick}; LANES=${2:-3}
 cd /verif; mkdir -p .scratch; RES=.scratch/run_all-$TIER.results; : > $RES
-ALL="C05 C01 C03 C07 C20 C04 C06 C18 C17 C12 C15 C10 C13 C19 C11 C09 C16 C14 C02 C08"
+ALL=${PROPS:-"C05 C01 C03 C07 C20 C04 C06 C18 C17 C12 C15 C10 C13 C19 C11 C09 C16 C14 C02 C08"}
 i=0
 for l in $(seq 1 $LANES); do LIST[$l]=""; done
 for p in $ALL; do l=$(( i % LANES + 1 )); LIST[$l]="${LIST[$l]} $p"; i=$((i+1)); done
